@@ -65,6 +65,17 @@ FORMS = {
     "set_spread2": "do def r = ['h', ...s]; delete_at(r, 0); r end",
     "set_spread_call": "(fn(a...) a...)(...s)",
     "set_sorted": "sorted(s)",
+    # taking a set apart by position: definition, assignment, loop variables
+    "set_destr1": "do def [p] = s; [p] end",
+    "set_destr2": "do def [p, q] = s; [p, q] end",
+    "set_destr3": "do def [p, q, r] = s; [p, q, r] end",
+    "set_destr4": "do def [p, q, r, t] = s; [p, q, r, t] end",
+    "set_assign2": "do def p = 0; def q = 0; [p, q] = s; [p, q] end",
+    "set_assign3": "do def p = 0; def q = 0; def r = 0; [p, q, r] = s; "
+                   "[p, q, r] end",
+    "set_for2": "do def o = []; for [p, q] in [s] do o = [p, q]; end; o end",
+    "set_for3": "do def o = []; for [p, q, r] in [s] do o = [p, q, r]; end; "
+                "o end",
     "set_comp": "[x for x in s]",
     "set_for": "do def r = []; for x in s do append(r, x); end; r end",
     "set_str": "string(s)",
@@ -279,7 +290,12 @@ def explore_enum(chunk):
                               ("set_spread_call", "s"), ("set_sorted", "s"),
                               ("set_for", "s"), ("map_keys", "m"),
                               ("map_for", "m"), ("map_entries", "m"),
-                              ("map_set", "m")):
+                              ("map_set", "m")) + tuple(
+                    (nm, "s") for nm in ("set_destr%d" % len(subset),
+                                         "set_assign%d" % len(subset),
+                                         "set_for%d" % len(subset))
+                    if nm in FORMS and len(set(map(repr, exp))) ==
+                    len(subset)):
                 r = f.ev(name, **{arg: s if arg == "s" else m})
                 agg.count("steps")
                 ok = r[0] == "value" and core.strict_eq(
